@@ -164,6 +164,9 @@ class Contract:
         self.lemmas = d.get('lemmas', [])
         self.decreases_entry = d.get('decreases', None)
         self.ghost_out = d.get('ghost_out', {})   # name -> (rank, [shape exprs]): ghost arrays the postcondition may mention
+        self.creates = d.get('creates', {})   # attributes of self the method creates: name -> sort spec (fresh values constrained by ensures)
+        self.allow_negative_index = d.get('allow_negative_index', False)
+        self.interp_src = d.get('interp_src', None)   # (spline param, data param): records what the spline now interpolates
         self.sets = d.get('sets', {})   # attribute of self -> expression (post-state); an ensures when verified, an assignment when used
 
 
